@@ -7,6 +7,9 @@ H0Connection through the stub transport (qlog on and off); every distinct
 QuicConnection.close() on a real connected pair, which must still emit its
 closing packet and make the peer report termination with that code.
 """
+import os
+
+VERIF = os.path.dirname(os.path.dirname(os.path.abspath(__file__)))
 PROPERTY = "C16"
 LEVEL = "exploration"
 RULE = (
@@ -384,6 +387,16 @@ def replay(ctx, case):
     ctx.case(None, True)
     if case["kind"] == "blocked":
         return blocked_case(ctx, case)
+    if case["kind"] == "fuzz":
+        from vlib import fuzz_h3
+
+        d = fuzz_h3.decode(bytes(case["data"]))
+        try:
+            if d is not None:
+                fuzz_h3.run_plan(*d)
+        except Exception as e:  # noqa
+            ctx.violation(exc_signature(e, "h3-raised-"), "H3Connection.handle_event raised %r on a fuzzer-found input" % (e,), case)
+        return
     if case["kind"] == "close":
         reason = case["reason"]
         if reason.startswith("'") or reason.startswith('"'):
@@ -495,8 +508,73 @@ def blocked_task(ctx, examples, shard):
     run_hypothesis(ctx, body, strat, examples, shard=shard)
 
 
+def fuzz_task(ctx, runs, seconds, shard):
+    """coverage-guided byte-level fuzzing of H3Connection.handle_event (atheris / libFuzzer, vlib/fuzz_h3.py)"""
+    import glob
+    import re
+    import shutil
+    import subprocess
+    import sys
+    import tempfile
+
+    from vlib import build, fuzz_h3
+
+    if not os.path.isdir(os.path.join(VERIF, ".deps", "atheris")):
+        ctx.cls("fuzz:atheris-not-installed")
+        ctx.extra["skipped"] = "atheris is not installed (setup.sh installs it from the offline wheelhouse)"
+        return
+    root = build.shadow("plain", os.environ.get("VERIF_REPO"))
+    out = os.path.join(os.environ.get("VERIF_OUT") or os.path.join(VERIF, "out"), "fuzz")
+    os.makedirs(out, exist_ok=True)
+    work = tempfile.mkdtemp(prefix="h3-%d-" % shard, dir=out)
+    corpus = os.path.join(work, "corpus")
+    os.makedirs(corpus)
+    # a few valid seeds: control stream with SETTINGS, a request, QPACK streams
+    seeds = [bytes([0, 3, 3, 0, 4, 0]), bytes([1, 3, 3, 0, 4, 0]), bytes([0, 0x80, 9, 1, 7, 0, 0, 0xD1, 0xD7, 0x51, 0x86, 0x60]), bytes([4, 4, 2, 2, 0]), bytes([1, 0xFF, 3, 0, 1, 2])]
+    for i, sd in enumerate(seeds):
+        with open(os.path.join(corpus, "seed%d" % i), "wb") as f:
+            f.write(sd)
+    cmd = [sys.executable, "-B", os.path.join(VERIF, "vlib", "fuzz_h3.py"), root, corpus, "-seed=%d" % (ctx.seed * 131 + shard + 1), "-max_len=700", "-print_final_stats=1"]
+    cmd += ["-runs=%d" % runs] if runs else ["-max_total_time=%d" % seconds]
+    env = dict(os.environ, PYTHONHASHSEED="0")
+    try:
+        p = subprocess.run(cmd, cwd=work, env=env, stdout=subprocess.PIPE, stderr=subprocess.STDOUT, timeout=(seconds or 60) + 600)
+        text = p.stdout.decode("utf-8", "replace")
+        m = re.search(r"stat::number_of_executed_units:\s*(\d+)", text) or re.search(r"Done (\d+) runs", text)
+        n = int(m.group(1)) if m else 0
+        ncorp = len(os.listdir(corpus))
+        ctx.evaluations += n
+        for fn in sorted(os.listdir(corpus))[: 5000]:
+            ctx.nontrivial.add(hash(fn) & 0xFFFFFFFFFFFF)
+        ctx.classes["fuzz:executions"] += n
+        ctx.classes["fuzz:coverage-increasing-inputs"] += ncorp
+        ctx.extra["fuzz"] = {"executions": n, "corpus": ncorp, "exit": p.returncode}
+        for fn in sorted(os.listdir(corpus))[:2]:
+            with open(os.path.join(corpus, fn), "rb") as f:
+                d = fuzz_h3.decode(f.read())
+            if d is not None:
+                ctx.sample({"kind": "fuzz", "is_client": d[0], "logging": d[1], "plan": [[x[0], len(x[1]), x[2]] if x[0] != "dgram" else ["dgram", len(x[1])] for x in d[2]][:8]})
+        crashes = sorted(glob.glob(os.path.join(work, "crash-*")))
+        if crashes:
+            with open(crashes[0], "rb") as f:
+                data = f.read()
+            em = re.search(r"=== Uncaught Python exception: ===\n(\w+)", text)
+            fm = re.findall(r'File "[^"]*/aioquic/([\w/]+)\.py", line \d+, in (\w+)', text)
+            sig = "h3-raised-%s-in-%s" % (em.group(1) if em else "Exception", ("%s.%s" % (fm[-1][0].split("/")[-1], fm[-1][1])) if fm else "?")
+            ctx.violation(sig, "coverage-guided fuzzing found an input for which H3Connection.handle_event raises:\n" + text[-1500:], {"kind": "fuzz", "data": data}, soft=True)
+        elif p.returncode != 0:
+            raise RuntimeError("harness: the fuzzer exited %d without a crash file:\n%s" % (p.returncode, text[-2000:]))
+    finally:
+        shutil.rmtree(work, ignore_errors=True)
+
+
 def plan(tier, seed):
     t = []
+    if tier == "quick":
+        t.append(("atheris-h3-0", {"fn": "fuzz", "runs": 40000, "seconds": 0, "shard": 0}))
+    else:
+        for sh in range(4):
+            t.append(("atheris-h3-%d" % sh, {"fn": "fuzz", "runs": 0, "seconds": 600, "shard": sh}))
     for p in range(4):
         t.append(("close-lengths-%d" % p, {"fn": "closelen", "part": p, "nparts": 4}))
     for s in range(2):
@@ -511,7 +589,9 @@ def plan(tier, seed):
 
 
 def run_task(ctx, name, fn, **kw):
-    if fn == "closelen":
+    if fn == "fuzz":
+        fuzz_task(ctx, kw["runs"], kw["seconds"], kw["shard"])
+    elif fn == "closelen":
         close_lengths(ctx, kw["part"], kw["nparts"])
     elif fn == "blocked":
         blocked_task(ctx, kw["examples"], kw["shard"])
